@@ -44,6 +44,13 @@ Theorem C18_stringify_unquoted_no_unescaped : forall a,
 Proof. exact stringify_unquoted_no_unescaped. Qed.
 Print Assumptions C18_stringify_unquoted_no_unescaped.
 
+(* Only ASCII changes: the bytes >= 0x80 of the argument appear in the output unchanged and in
+   order, and nothing else >= 0x80 does; a valid UTF-8 argument therefore gives valid UTF-8 text. *)
+Theorem C18_stringify_high_bytes_preserved : forall q a,
+  filter high (stringify_arg q a) = filter high a.
+Proof. exact stringify_high_bytes. Qed.
+Print Assumptions C18_stringify_high_bytes_preserved.
+
 (* (3) deps_gate.  Every resource body that ends up in the injected script (the scriptlet of a
    function-style injection and every transitive dependency, also those collected before an
    injection was finally refused) is a stored resource whose required permission bits were all
@@ -168,12 +175,30 @@ Theorem C18_permission_union_refuted :
 Proof. exact permission_union_refuted. Qed.
 Print Assumptions C18_permission_union_refuted.
 
+(* Outside F25's class — an injection evaluated on an EMPTY visited list (no other injection of
+   the host shares the collected dependencies) — the statement holds at full strength: when the
+   injection succeeds, the collected set is closed under dependencies (every dependency name of
+   every member, and of the scriptlet, resolves by canonical name to a member) and every member
+   passed the gate of this rule's own mask.  So the scriptlet and ALL its transitive dependencies
+   were granted to the list that wrote the rule. *)
+Theorem C18_closure_gate_alone : forall st text mask deps' inv,
+  get_scriptlet_resource st text mask [] = (deps', SOk inv) ->
+  exists name args r0,
+    parse_scriptlet_args text = Some (name :: args) /\
+    get_internal_resource st (with_js_extension name) = Some r0 /\
+    c18_is_injectable_by (r_perm r0) mask = true /\
+    deps_in st mask r0 deps' /\
+    forall r, In r deps' ->
+      In r (st_res st) /\ c18_is_injectable_by (r_perm r) mask = true /\ deps_in st mask r deps'.
+Proof. exact closure_gate_alone. Qed.
+Print Assumptions C18_closure_gate_alone.
+
 (* F25 (found here): the gate is applied to each resource when it is first collected, not to the
    dependency closure of each invocation.  A rule whose list lacks a bit required by a transitive
    dependency is refused when evaluated alone, and accepted after another rule has collected the
    intermediate dependency; in the other order the privileged rule is invoked without its
-   dependency.  (Not proved: "every invocation's whole dependency closure passed the gate of its
-   own mask" — it is false, these are the witnesses.) *)
+   dependency.  ("Every invocation's whole dependency closure passed the gate of its own mask" is
+   false when the visited list is shared between injections; these are the witnesses.) *)
 Theorem C18_visited_dependency_skips_gate_refuted :
   exists st,
     snd (get_scriptlet_resource st (bs "b") 0 []) = SErr InsufficientPermissions /\
